@@ -6,9 +6,14 @@ Monitor shape: generated valid message objects are pushed through the real
 generator's field values through the grammar table's own list of public attributes and through
 ``marshal()`` after normalisation.  ``Message.__eq__`` is never used.  Also monitored: batch
 count/order, the text/binary flag against the produced bytes, the per-object serialization cache.
+Serializer variants = format x CONFIGURATION (JSON: default, hex binary convention, Decimal-from-string) x
+batching; the fan-out monitor sends ONE message object over several links (separate sending / receiving
+instances; other formats, other configurations of the same format, other instances of the same
+configuration, instances that go away and are replaced) and compares every delivery with a fresh object's.
 """
 
 import copy
+import gc
 import random
 
 from vf import c03_deep as D
@@ -27,7 +32,13 @@ RULE = ("for each of the 25 message classes the grammar table enumerates option 
         "rotated per case (ids 0/1/2^53, forward_for chains of length 0-3, every enum value, role feature dictionaries) and "
         "application payloads drawn from a recursive generator (ints up to 2^53 both signs, floats, bool, None, unicode "
         "incl. astral/combining/control characters, bytes, lists/dicts to depth 4). Every message goes through marshal->parse "
-        "directly and through 8 serializer variants; heterogeneous batches of 1/2/3/17 messages; cache attack (A, B, mutate+"
+        "directly and through 12 serializer variants (4 formats x batching, JSON additionally in its hex binary convention "
+        "and with Decimal-from-string: constructor options are a configuration dimension); fan-out programs: ONE message object "
+        "(no uncache()) is sent out over 2-6 links in turn, a link being a sending and a separate receiving instance of one "
+        "variant - other formats, the other CONFIGURATION of the same format and batching, the other batching mode, other "
+        "instances of the same configuration, pooled instances and instances created for one delivery that go away again (the "
+        "next transport's serializer is then picked, of 8 candidates, at the address of one that went away) - every delivery "
+        "compared with what a fresh object yields over fresh instances (message and octets); heterogeneous batches of 1/2/3/17 messages; cache attack (A, B, mutate+"
         "uncache) and cache sequences (programs of serialize / mutate+uncache / continue-with-the-received-object steps over "
         "3-8 serializer instances); every other draw puts Unicode text that is not NFC-stable into all URI-typed fields, string "
         "options and kwargs keys; SUBSCRIBE/REGISTER pattern URIs take every shape admissible under their match policy (prefix: "
@@ -49,6 +60,8 @@ ASSUMPTIONS = [
     "a null in the Arguments position of a kwargs-only message (what 6 of the 7 payload classes emit and accept) is not asserted against: args None == [] is a documented equivalence of the round trip; only a message the library cannot read back is reported",
     "URI-typed fields (realm, topic, procedure, error, reason), string options (authid, authrole, transaction_hash, ..., forward_for entries), kwargs keys and an args element carry, in every other draw, text that is NOT stable under Unicode normalisation (NFD sequences, Hangul jamo, canonical singletons U+212B/U+2126/U+F900, composition exclusions, reordered combining marks, astral, zero-width joiners, mixed script); every component obeys the loose URI grammar (no whitespace, '.', '#'); strings are compared code point by code point - the oracle never normalises (unicodedata is used only to classify the generated inputs for the counters)",
     "pattern URIs (SUBSCRIBE.topic, REGISTER.procedure) are drawn per match policy, independently of the other option values: exact/absent -> no empty component; prefix -> also a trailing empty component or the empty URI; wildcard -> empty components at leading / inner / trailing positions, several of them, all-empty ('..') and the empty URI; every (class, policy, shape) is additionally enumerated bare and with all other options, with ASCII and with non-NFC components",
+    "serializer configurations: JsonSerializer(use_binary_hex_encoding=True) and JsonSerializer(use_decimal_from_str=True) are run as variants of their own (the anchors name both JSON binary conventions and the Decimal handling). Each option RESERVES some text, exactly as the default convention reserves a leading U+0000: a message containing a string (value or key, anywhere) that starts with '0x' is not sent through the hex configuration, one containing a string that looks like a decimal number (made of sign/digit/'.'/'_'/exponent characters, or a NaN/Infinity spelling - deliberately wider than the library's own pattern) is not sent through the Decimal configuration; Decimal VALUES are not in the statement's list and are not generated; use_decimal_from_float is not reachable through JsonSerializer",
+    "fan-out: serializing one message object for several transports without uncache() is the documented purpose of the per-message cache; whether two serializer instances SHARE a cache entry is left open (sharing between instances that produce the same octets is fine) - only the delivered message and octets are compared with a fresh object's. Instances used for one delivery are released (gc.collect(): a transport serializer and its object serializer refer to each other) before the next link's serializer is created; the allocator's choice of address is resolved adversarially by creating up to 8 candidates",
     "third-party decoders (stdlib json, msgpack, cbor2, bjdata) are trusted to decide whether produced bytes are well-formed for the is_binary check",
     "both txaio frameworks are used (shards alternate tx/aio); the serializers need one selected because of txaio.time_ns",
 ]
@@ -78,7 +91,20 @@ DECIDING = {
     "unicode_kwargs_key_roundtrips": lambda tier: 1000 if tier == "quick" else 50000,
     "is_binary_checked": 5000,
     "classes": 25,
-    "serializer_variants": 8,
+    "serializer_variants": 12,
+    "config_variant_roundtrips": lambda tier: 5000 if tier == "quick" else 40000,
+    "config_variant_binary_roundtrips": lambda tier: 2500 if tier == "quick" else 20000,
+    "fanout_programs": lambda tier: 600 if tier == "quick" else 5000,
+    "fanout_deliveries": lambda tier: 2400 if tier == "quick" else 20000,
+    "fanout_after_other_config": lambda tier: 500 if tier == "quick" else 4000,
+    "fanout_after_other_config_with_binary": lambda tier: 300 if tier == "quick" else 2500,
+    "fanout_after_other_batching": lambda tier: 400 if tier == "quick" else 3000,
+    "fanout_after_same_config_other_instance": lambda tier: 150 if tier == "quick" else 1200,
+    "fanout_fresh_instance_deliveries": lambda tier: 700 if tier == "quick" else 6000,
+    # (a link created after the instances of an earlier one-delivery link were released and collected; whether the new
+    # serializer can land on a released ADDRESS depends on the code under test - the cache of a correct message object keeps
+    # its serializers alive - so fanout_after_gone_instance_address is reported, not required)
+    "fanout_links_replacing_released_link": lambda tier: 250 if tier == "quick" else 2000,
     "payload_modes": len(G.PAYLOAD_MODES),
 }
 
@@ -107,18 +133,37 @@ def _load():
 
 
 def make_serializers(S):
-    out = []
-    for name in ("JsonSerializer", "MsgPackSerializer", "CBORSerializer", "UBJSONSerializer"):
-        cls = getattr(S, name, None)
-        if cls is None:
-            continue
-        for batched in (False, True):
-            ser = cls(batched=batched)
-            out.append((ser.SERIALIZER_ID, ser, batched))
-    return out
+    """One instance per serializer variant = format x configuration (JSON: default / hex binary convention / Decimal from
+    strings) x batching.  -> [(variant id, instance, batched)]"""
+    return [(sid, cls(**kw), kw["batched"]) for sid, cls, kw in D.serializer_variants(S)[0]]
 
 
-independent_decode = G.independent_decode
+def independent_decode(sid, data, batched):
+    # (well-formedness and framing only: configurations of a format share its wire syntax)
+    return G.independent_decode(D.plain_sid(sid), data, batched)
+
+
+_skipped = D.skipped
+
+
+class _Buffered:
+    """Recorder proxy: counters and distinct sets go straight through, violations are held back until the caller knows
+    which mechanism they belong to."""
+
+    def __init__(self, R):
+        self._R = R
+        self.held = []
+
+    def violation(self, *a, **kw):
+        self.held.append((a, kw))
+
+    def flush(self):
+        for a, kw in self.held:
+            self._R.violation(*a, **kw)
+        self.held = []
+
+    def __getattr__(self, name):
+        return getattr(self._R, name)
 
 
 class Monitor:
@@ -126,11 +171,14 @@ class Monitor:
         self.R = R
         self.M, self.Rl, self.S = mods
         self.sers = sers
+        self.variants = {sid: (cls, kw) for sid, cls, kw in D.serializer_variants(self.S)[0]}
+        # links = (sending instance, receiving instance) per variant, two of them living as long as the shard
+        self.links = {sid: [(cls(**kw), cls(**kw)) for _ in range(2)] for sid, (cls, kw) in self.variants.items()}
 
     # -- comparison ---------------------------------------------------------------------------
-    def compare(self, spec, expected, got_msg, where, mode, case, sent_msg=None, reported=None):
+    def compare(self, spec, expected, got_msg, where, mode, case, sent_msg=None, reported=None, R=None):
         """Attribute-wise + marshal comparison.  Returns set of attrs that differ."""
-        R = self.R
+        R = R or self.R
         bad = set()
         triple_lost = False      # payload-empty: loss of the payload-transparency triple is ONE mechanism per class
         if type(got_msg).__name__ != spec.name:
@@ -192,7 +240,8 @@ class Monitor:
 
     # -- one message through everything ---------------------------------------------------------
     def run_case(self, spec, label, mode, f, skip, case, only_ser=None):
-        """``skip``: serializer families (json/msgpack/cbor/ubjson) this case must not be sent through (True == json only)."""
+        """``skip``: serializer families (json/msgpack/cbor/ubjson) and/or configuration tags (+hex/+dec) this case must not
+        be sent through (True == json only)."""
         R, M = self.R, self.M
         skip = _skipset(skip)
         msg = G.make(M, self.Rl, spec.name, f)
@@ -214,14 +263,16 @@ class Monitor:
             reported = self.compare(spec, expected, back, "marshal-parse", mode, case, msg)
         # (b) every serializer variant
         ok = "<exception>" not in reported
+        went = []
         for sid, ser, batched in self.sers:
             if only_ser and sid != only_ser:
                 continue
-            if sid.split(".")[0] in skip:
+            if _skipped(sid, skip):
                 R.count("skipped_unspecified_for_serializer")
                 continue
             R.count("evaluations")
             R.seen("serializer_variants", sid)
+            went.append(sid)
             try:
                 data, is_binary = ser.serialize(msg)
             except Exception as e:
@@ -237,6 +288,8 @@ class Monitor:
                 if "<exception>" in reported:
                     R.count("exception_repeated_via_serializer")
                     continue
+                if self.history_dependent(spec, f, sid, ser, data, "exception-" + type(e).__name__, case, went):
+                    continue
                 R.violation("C03/%s/exception-%s@%s/unserialize-%s" % (spec.name, type(e).__name__, mode, sid),
                             "unserialize() of the serializer's own output for a valid %s raised %r" % (spec.name, e),
                             {"mode": mode, "label": label, "bytes": data[:200].hex()}, case)
@@ -246,6 +299,10 @@ class Monitor:
                             {"bytes": data[:200].hex()}, case)
                 continue
             R.count("roundtrips_compared")
+            if D.variant_parts(sid)[1]:
+                R.count("config_variant_roundtrips")
+                if case.get("has_bytes"):
+                    R.count("config_variant_binary_roundtrips")
             if mode.startswith("huge-"):
                 R.count("huge_roundtrips")
                 R.seen("huge_size_classes", "%s|>=2^%d" % (sid, 24 if len(data) >= 1 << 24 else (20 if len(data) >= 1 << 20 else 16)))
@@ -273,7 +330,12 @@ class Monitor:
                         R.seen("unicode_option_fields", "%s.%s" % (spec.name, a))
                 if uni["keys"]:
                     R.count("unicode_kwargs_key_roundtrips")
-            self.compare(spec, expected, out[0], sid, mode, case, msg, reported)
+            buf = _Buffered(R)
+            self.compare(spec, expected, out[0], sid, mode, case, msg, reported, buf)
+            if buf.held and self.history_dependent(spec, f, sid, ser, data, "content", case, went):
+                ok = False
+                continue
+            buf.flush()
             if "<exception>" not in reported:
                 self.reserialize_received(sid, ser, spec, out[0], 0, 1, case)
             R.seen("nontrivial", "%s|%s|%s" % (label, mode, sid))
@@ -281,6 +343,26 @@ class Monitor:
             R.sample({"class": spec.name, "label": label, "mode": mode, "serializer": sid, "bytes": data[:120].hex(),
                       "is_binary": is_binary}, kind="roundtrip-" + sid.split(".")[0], every=211)
         return msg, expected, ok
+
+    def history_dependent(self, spec, f, sid, ser, data, what, case, went):
+        """A deviation seen on the case's message object, which has been serialized over the variants before ``sid`` already:
+        does a FRESH object with the same field values come through the same serializer instance with other octets?  Then
+        the deviation is a product of the object's history (per-message serialization cache), not of this variant's
+        marshal/serialize/parse - ONE mechanism, reported once per format instead of once per class and attribute."""
+        R = self.R
+        try:
+            fresh = ser.serialize(G.make(self.M, self.Rl, spec.name, f))[0]
+        except Exception:
+            return False
+        if fresh == data:
+            return False
+        R.count("history_dependent_deviations")
+        R.violation("C03/cache/shared-object/%s/%s" % (D.variant_parts(sid)[0], what),
+                    "a %s that had gone out over other serializer variants before was serialized for %s with octets that differ "
+                    "from a fresh object's (%s at the receiver); order: %s" % (
+                        spec.name, sid, what, " -> ".join(went)),
+                    {"variant": sid, "bytes": data[:160].hex(), "fresh": fresh[:160].hex()}, case)
+        return True
 
     def check_flag(self, sid, batched, data, is_binary, n, case):
         R = self.R
@@ -311,7 +393,7 @@ class Monitor:
         for sid, ser, batched in self.sers:
             if not batched:
                 continue
-            its = [it for it in items if sid.split(".")[0] not in _skipset(it[4])]
+            its = [it for it in items if not _skipped(sid, _skipset(it[4]))]
             if len(its) != n:
                 continue
             R.count("evaluations")
@@ -369,7 +451,7 @@ class Monitor:
     def cache_attack(self, spec, f, rng, case, skip=False):
         R, M = self.R, self.M
         skip = _skipset(skip)
-        sers = [s for s in self.sers if s[0].split(".")[0] not in skip]
+        sers = [s for s in self.sers if not _skipped(s[0], skip)]
         if len(sers) < 2:
             return
         (sa, serA, ba), (sb, serB, bb) = rng.sample(sers, 2)
@@ -444,7 +526,7 @@ class Monitor:
         R, M = self.R, self.M
         rng = random.Random(seq_seed)
         skip = _skipset(skip)
-        sers = [s for s in self.sers if s[0].split(".")[0] not in skip]
+        sers = [s for s in self.sers if not _skipped(s[0], skip)]
         if len(sers) < 3:
             return
         chosen = rng.sample(sers, rng.randint(3, len(sers)))
@@ -518,6 +600,123 @@ class Monitor:
         R.seen("cache_sequence_shapes", "".join(t[0] for t in trace))
 
 
+    # -- fan-out: ONE message object over several links -----------------------------------------
+    def link(self, sid, kind, dying=None):
+        """``dying``: the instances of earlier one-delivery links of the program; they go away NOW, right before the new
+        transport's serializer is created.  Which address the allocator hands to a new object is not under anybody's
+        control, so it is resolved adversarially: of up to 8 freshly created instances the one that landed on the address
+        of an instance that went away is taken (a message object that outlives a transport must not mistake the next
+        transport for it)."""
+        if kind == "fresh":
+            cls, kw = self.variants[sid]
+            if dying:
+                gone = set()
+                for t in dying:
+                    gone |= _addr(t)
+                del t
+                dying.clear()
+                self.R.count("fanout_links_replacing_released_link")
+                gc.collect()      # (a transport serializer and its object serializer refer to each other: freed by the collector)
+                held = []
+                for _ in range(8):
+                    tx = cls(**kw)
+                    if _addr(tx) & gone:
+                        self.reused = True
+                        break
+                    held.append(tx)
+                del held
+            else:
+                tx = cls(**kw)
+            return tx, cls(**kw)
+        return self.links[sid][1 if kind == "pool1" else 0]
+
+    def fanout(self, spec, f, fan_seed, case, skip=False):
+        """What a router does with one EVENT / RESULT: the SAME message object (no uncache()) is serialized for 2..6 links in
+        turn.  A link = a sending and a separate receiving serializer instance of one variant (format x configuration x
+        batching); the links of one program mix other formats, other CONFIGURATIONS of the same format, the other batching
+        mode and other instances of the same configuration (pooled and freshly created ones).  Oracle for every delivery:
+        the receiver gets what a FRESH message object with the same field values yields over fresh instances of that
+        variant, and the octets are the fresh object's octets - whatever went out before."""
+        R, M = self.R, self.M
+        rng = random.Random(fan_seed)
+        skip = _skipset(skip)
+        sids = [s[0] for s in self.sers if not _skipped(s[0], skip)]
+        if len(sids) < 2:
+            return
+        plan = D.fanout_plan(rng, sids)
+        case = dict(case, fan_seed=fan_seed)
+        try:
+            msg = G.make(M, self.Rl, spec.name, f)
+        except Exception:
+            return
+        hasbin = D.has_bytes(f)
+        R.count("evaluations")
+        R.count("fanout_programs")
+        earlier, trace, wants, dying = [], [], {}, []
+        for sid, kind in plan:
+            fam = D.variant_parts(sid)[0]
+            if sid not in wants:
+                try:
+                    ftx, frx = self.link(sid, "fresh")
+                    fresh = ftx.serialize(G.make(M, self.Rl, spec.name, f))
+                    want = frx.unserialize(*fresh)
+                    assert len(want) == 1
+                    wants[sid] = (fresh[0], G.attr_view(spec, want[0]))
+                    del ftx, frx
+                except Exception:
+                    R.count("fanout_aborted")          # the message itself does not round-trip: reported by run_case
+                    return
+            self.reused = False
+            tx, rx = self.link(sid, kind, dying)
+            fresh_octets, want_view = wants[sid]
+            # (instances created for one delivery are NOT kept alive afterwards - a transport that went away - so they are
+            # identified by a token, not by the object)
+            token = tx if kind != "fresh" else object()
+            rel = D.fanout_relation(sid, token, earlier)
+            if self.reused:
+                # the new link's serializer sits at the address of one that went away during this program
+                rel = "gone-instance-address"
+            trace.append("%s/%s" % (sid, kind))
+            detail = {"trace": list(trace), "relation": rel}
+            try:
+                d, isb = tx.serialize(msg)
+                back = rx.unserialize(d, isb)
+            except Exception as e:
+                R.violation("C03/fanout/exception-%s/%s/after-%s" % (type(e).__name__, fam, rel),
+                            "one %s object sent out over %s: the receiver on the last link got %r" % (spec.name, " -> ".join(trace), e),
+                            detail, case)
+                return
+            R.count("fanout_deliveries")
+            R.count("fanout_after_" + rel.replace("-", "_"))
+            if rel == "other-config" and hasbin:
+                R.count("fanout_after_other_config_with_binary")
+            if kind == "fresh":
+                R.count("fanout_fresh_instance_deliveries")
+            R.seen("fanout_relations", "%s|%s" % (fam, rel))
+            if len(back) != 1 or type(back[0]).__name__ != spec.name or G.attr_view(spec, back[0]) != want_view:
+                R.violation("C03/fanout/content/%s/after-%s" % (fam, rel),
+                            "one %s object sent out over %s: the receiver on the last link did not get the message a fresh object "
+                            "gives over that link (%d message(s) back)" % (spec.name, " -> ".join(trace), len(back)),
+                            dict(detail, bytes=d[:160].hex(), fresh=fresh_octets[:160].hex()), case)
+                return
+            if d != fresh_octets:
+                R.violation("C03/fanout/octets-differ-from-fresh/%s/after-%s" % (fam, rel),
+                            "one %s object sent out over %s: the octets on the last link differ from those of a fresh object" % (
+                                spec.name, " -> ".join(trace)),
+                            dict(detail, bytes=d[:160].hex(), fresh=fresh_octets[:160].hex()), case)
+                return
+            earlier.append((sid, token))
+            if kind == "fresh":
+                dying.append(tx)
+            del tx, rx, token
+        R.seen("nontrivial", "fanout|%s|%s" % (spec.name, ">".join(trace)))
+
+
+def _addr(ser):
+    """Addresses of a transport serializer and of the object serializer inside it (what Message.serialize() is handed)."""
+    return {id(ser)} | {id(v) for v in vars(ser).values() if hasattr(v, "serialize") and hasattr(v, "unserialize")}
+
+
 def _skipset(skip):
     if skip is True:
         return frozenset(("json",))
@@ -537,6 +736,10 @@ def start(R):
         return None
     R.count("grammar_in_sync")
     sers = make_serializers(S)
+    unknown = D.serializer_variants(S)[1]
+    if unknown:
+        # a constructor option of a standard serializer the configuration table does not know: not exercised (reported)
+        R.note("serializer_ctor_options_not_in_table", unknown)
     return Monitor(R, mods, sers)
 
 
@@ -554,7 +757,6 @@ class _Driver:
 
     def one(self, spec, k, label, mode, f, pg, gen="base", sub=None, pattern=None):
         mon, R, rng = self.mon, self.R, self.rng
-        skip = D.skip_bases(pg)
         if pattern is None:
             # SUBSCRIBE / REGISTER: a pattern URI whose shape (empty components) is drawn independently per match policy
             pattern = D.match_overlay(spec, f, random.Random("%s/c03/match/%s/%s/%s/%d" % (self.seed, gen, sub, spec.name, k)))
@@ -562,8 +764,19 @@ class _Driver:
         if k % 2 == 0:
             # every other draw: URI-typed fields, string options, kwargs keys carry Unicode text that is not NFC-stable
             uni = D.unicode_overlay(spec, f, random.Random("%s/c03/uni/%s/%s/%s/%d" % (self.seed, gen, sub, spec.name, k)))
+        # (after the overlays: text a serializer CONFIGURATION reserves - "0x.." for the hex binary convention, decimal-looking
+        # strings for Decimal-from-string - keeps the case away from that configuration)
+        skip = D.skip_bases(pg) | D.config_skips(f)
+        hasbin = D.has_bytes(f)
+        if self.thorough:
+            # cost: the thorough tier sends every 3rd case through the Decimal configuration and every case with a binary
+            # value (else every 2nd) through the hex configuration; the quick tier sends every case through all 12 variants
+            if (self.ncase + 1) % 3:
+                skip = skip | {"+dec"}
+            if (self.ncase + 1) % 2 and not hasbin:
+                skip = skip | {"+hex"}
         case = {"class": spec.name, "k": k, "label": label, "mode": mode, "fields": G.jenc(f), "nul_prefix": pg.nul_prefix,
-                "skip": sorted(skip), "kinds": sorted(pg.kinds), "gen": gen}
+                "skip": sorted(skip), "kinds": sorted(pg.kinds), "gen": gen, "has_bytes": hasbin}
         if uni is not None:
             case["uni"] = uni
         if pattern is not None:
@@ -576,6 +789,10 @@ class _Driver:
         R.count(gen + "_cases")
         self.ncase += 1
         ncase = self.ncase
+        # (the fan-out oracle is relative to a fresh object over fresh instances: a message that does not round-trip at all
+        # cannot show up there a second time, so it runs whether or not run_case reported something)
+        if ncase % 4 == 1 or (case["has_bytes"] and ncase % 2):
+            mon.fanout(spec, f, "%s/c03/fan/%d/%d" % (self.seed, self.part, ncase), case, skip)
         if not ok:
             return            # already reported; do not let one defect show up again as batch/cache noise
         self.ring.append((spec, msg, expected, mode, skip, case["fields"], f))
@@ -610,9 +827,11 @@ class _Driver:
         keep = []
         for p, only in D.huge_plan(self.tier, self.seed, self.part, NSHARDS[self.tier]):
             spec, f, mode = D.huge_fields(p)
-            skip = frozenset(b for b in D.BASES if only is not None and b not in only)
+            skip = frozenset(b for b in D.BASES if only is not None and b not in only) | D.config_skips(f)
+            if p["size"] >= 1 << 24:
+                skip = skip | {"+dec"}           # memory: same octets as the default configuration, cached once more per variant
             case = {"class": spec.name, "label": "%s/huge" % spec.name, "mode": mode, "fields": {"$huge": p}, "skip": sorted(skip),
-                    "kinds": [mode], "gen": "huge"}
+                    "kinds": [mode], "gen": "huge", "has_bytes": D.has_bytes(f)}
             msg, expected, ok = mon.run_case(spec, case["label"], mode, f, skip, case)
             R.count("huge_cases")
             if not ok:
@@ -706,6 +925,7 @@ def replay(case, R):
     mon.run_case(spec, case.get("label", "replay"), case.get("mode", "none"), f, skip, case)
     mon.cache_attack(spec, f, random.Random(0), case, skip)
     mon.cache_sequence(spec, f, case.get("seq_seed", "replay"), case, skip)
+    mon.fanout(spec, f, case.get("fan_seed", "replay"), case, skip)
 
 
 MANIFEST_ENTRY = {
@@ -721,13 +941,19 @@ MANIFEST_ENTRY = {
              "> 2^24) serialized octets are sent alone and inside mixed batches (length-prefix framing checked by an independent "
              "decoder); the per-object serialization cache is attacked (A, then B, then mutate+uncache(); programs of "
              "serialize / mutate+uncache / go-on-with-the-received-object steps over 3-8 serializer instances, each compared "
-             "with a fresh object). Thorough adds several sub-seeds of deep payloads (depth 24, 8 KiB strings/binaries, all "
+             "with a fresh object); the JSON serializer additionally runs in its hex binary convention and with Decimal-from-string "
+             "as variants of their own, and fan-out programs send one message object over 2-6 links (separate sending/receiving "
+             "instances of other formats, other configurations of the same format, other instances of the same configuration, "
+             "instances that go away and are replaced at the same address), each delivery compared with a fresh object's). "
+             "Thorough adds several sub-seeds of deep payloads (depth 24, 8 KiB strings/binaries, all "
              "integer width boundaries up to +-2^53, binary64 edge values, NaN/inf through MsgPack/CBOR). Held = no deviation "
              "on the executions listed in the evidence; not a proof."),
     "note": ("trusts vf/wamp_grammar.py (cross-checked against the code at start-up; drift => inconclusive), the documented "
              "equivalences (absent == default, empty args/kwargs == absent, tuple == list), stdlib json/msgpack/cbor2/bjdata as "
              "independent decoders for the is_binary check; JSON strings starting with U+0000, ints beyond +-2^53, NaN/inf "
-             "through JSON/UBJSON and subnormal floats through UBJSON are outside the statement and not generated; messages "
+             "through JSON/UBJSON and subnormal floats through UBJSON are outside the statement and not generated; text a JSON "
+             "configuration reserves ('0x..' under the hex convention, decimal-looking strings under Decimal-from-string) is kept away "
+             "from that configuration; Decimal values are not generated; messages "
              "beyond 2^32 octets are not generated"),
     "technique": "runtime monitoring: generated valid inputs through the real serializers, attribute-wise round-trip oracle from an independent grammar table",
 }
